@@ -61,6 +61,8 @@ def cases(draw):
         over["cb_rate"] = 4
     p = S.profile_for(bset, **over)
     prog = draw(S.programs(p))
+    if draw(st.integers(0, 2)) == 0:
+        S.add_special_methods(draw, prog)       # accessors, constructors, stringifiers, comparators, indexers, iterators
     if bset == ["c", "cpp"] and draw(st.integers(0, 2)) == 0:
         # bridged traits (accepted by the C backend only; cpp rejects the program and is skipped): one or two of them
         S.add_trait(draw, prog, "DvTrait")
